@@ -294,4 +294,69 @@ def check(fx, rep, tier):
                   'is a comment line of its own)' % (n['name'], ', '.join(reshaped)))
     if not n4:
         rep.bad('R16.4', 'anchor', 'zlink-macros/src', 'no function collecting #[doc] attributes found')
+    # R16.5 lifetimes: the derive names each field type inside a `static`, where the item's lifetime parameters are not in scope; the stripper that
+    # erases them must reach every place of a syn::Type where a lifetime can stand
+    rep.rule('R16.5', 'lifetimes: the function that erases lifetimes from a field type before it is named in the description recurses into every syn::Type '
+                      'constructor that contains a type (Reference, Path, Tuple, Array, Slice, Ptr, Group, Paren)')
+    import re as _re
+    fns = {n['name']: (fn, n) for fn, n, impl in A.all_fns(fx.tpl, 'zlink-macros/src')}
+
+    def type_arms(n):
+        out = []
+        for x in A.nodes(n.get('body') or []):
+            if x.get('k') == 'match':
+                for arm in x.get('arms') or []:
+                    vs = _re.findall(r'\bType\s*::\s*(\w+)', arm.get('pat') or '')
+                    if vs:
+                        out.append((vs, arm))
+        return out
+
+    def erases(n):
+        for x in A.nodes(n.get('body') or []):
+            if x.get('k') == 'struct' and any(f.get('name') == 'lifetime' and A.text(f.get('value')).strip() == 'None' for f in x.get('fields') or []):
+                return True
+            if x.get('k') == 'assign' and A.text(x.get('l')).strip().endswith('.lifetime') and A.text(x.get('r')).strip() == 'None':
+                return True
+        return False
+    roots = [name for name, (fn, n) in fns.items() if erases(n) and any('Reference' in vs for vs, _ in type_arms(n))]
+    n5 = 0
+    for root in roots:
+        fam = {root}
+        work = [root]
+        while work:
+            cur = work.pop()
+            for x in A.nodes(fns[cur][1].get('body') or []):
+                cal = None
+                if x.get('k') == 'call' and isinstance(x.get('func'), str):
+                    cal = x['func'].split('::')[-1]
+                elif x.get('k') == 'path':
+                    cal = (x.get('text') or '').split('::')[-1]
+                if cal in fns and cal not in fam and type_arms(fns[cal][1]):
+                    fam.add(cal)
+                    work.append(cal)
+        # callers that only wrap the stripper (clone + in-place walk) belong to the family too
+        for name, (fn, n) in fns.items():
+            if name not in fam and any(x.get('k') == 'call' and isinstance(x.get('func'), str) and x['func'].split('::')[-1] in fam for x in A.nodes(n.get('body') or [])) \
+                    and 'Type' in (n.get('sig') or '') and len(list(A.nodes(n.get('body') or []))) < 40:
+                fam.add(name)
+        seen = {}
+        for name in sorted(fam):
+            for vs, arm in type_arms(fns[name][1]):
+                rec = any((x.get('k') == 'call' and isinstance(x.get('func'), str) and x['func'].split('::')[-1] in fam) or
+                          (x.get('k') == 'path' and (x.get('text') or '').split('::')[-1] in fam) for x in A.nodes(arm.get('body')))
+                for v in vs:
+                    seen[v] = seen.get(v, False) or rec
+        need = ['Reference', 'Path', 'Tuple', 'Array', 'Slice', 'Ptr', 'Group', 'Paren']
+        missing = [v for v in need if v not in seen]
+        shallow = [v for v in need if v in seen and not seen[v]]
+        n5 += 1
+        fn0, nn = fns[root]
+        rep.check(not missing and not shallow, 'R16.5', '%s|visits-every-type-constructor' % root, '%s:%s' % (fn0, nn.get('line')),
+                  '%s (with %s) handles and recurses into %s' % (root, ', '.join(sorted(fam - {root})) or 'no helper', ', '.join(need)),
+                  'the lifetime stripper %s does not reach every place a lifetime can stand: %s%s - a field of such a type (e.g. `&\'a [&\'a str]`) keeps its lifetime and the '
+                  'derived description does not compile / is not produced' % (root, ('no arm for Type::' + ', Type::'.join(missing)) if missing else '',
+                                                                             ('; no recursion in the arm of Type::' + ', Type::'.join(shallow)) if shallow else ''),
+                  {'arms': sorted(seen), 'family': sorted(fam)})
+    if not n5:
+        rep.bad('R16.5', 'anchor', 'zlink-macros/src', 'no function erasing lifetimes from a syn::Type found')
     return META
